@@ -119,7 +119,7 @@ CLAIMED = {
         text=("Generated programs (2-3 goroutines x 1-3 operations incl. per-goroutine handle I/O) run under a scheduler the harness owns; every explored interleaving's results + final tree must equal some sequential order's. "
               "Per program either 12 drawn schedules or every schedule with <=2 pre-emptions; an independence leg confines goroutines to disjoint subtrees; observer legs run ONE mutating operation against read-only threads (stat/readdir/cat) under every <=2-pre-emption schedule (random, and a complete canonical family in the quick tier), so an operation that stops being one step is seen even where two mutators are excluded; free-running legs (hot-file programs, 5 iterations x 20 repetitions, and -race in thorough) look for panics, deadlocks and data races. "
               "Bounded: programs are sampled; schedules are exhaustive only up to 2 pre-emptions at transaction/blob-operation granularity."),
-        note="operations of different goroutines on the same path or on a path and its ancestor are excluded from the serializability legs while known findings C15:ns:same / C15:ns:parent-child reproduce (operations are multi-transaction: needs a redesign); they remain in the free-running/race legs; in the observer legs only the exactly identified classes C15:obs:* (MkdirAll of >=2 levels, Rename of a directory, a listing racing a rename inside it) are excluded; a data race report is a violation whose schedule cannot be replayed",
+        note="cross-thread operation pairs of the 60 listed classes C15:ns:<kinds>:<relation> (operations are multi-transaction: needs a redesign; each class has a recorded witness that its probe replays) are excluded by construction from the serializability legs, all other same-path / ancestor / sibling classes are searched; they remain in the free-running/race legs; in the observer legs only the exactly identified classes C15:obs:* (MkdirAll of >=2 levels, Rename of a directory, a listing racing a rename inside it) are excluded; a data race report is a violation whose schedule cannot be replayed",
     ),
     "C09": dict(
         technique="property-based testing with rapid over roots, volumes, conventions, names and constructed OS-path candidates; oracles computed by splitting/cleaning in the harness (round-trip and inverse relations); native coverage-guided fuzzing in the thorough tier",
